@@ -268,6 +268,8 @@ pub struct Decoded {
     pub logs: Vec<LogRec>,
     pub spans: Vec<SpanRec>,
     pub metrics: Vec<MetricRec>,
+    /// resource attributes, one entry per Resource* element seen
+    pub resources: Vec<Attrs>,
 }
 
 // ---- protobuf
@@ -294,6 +296,7 @@ pub fn decode_proto(path: &str, body: &[u8], out: &mut Decoded) -> Result<(), St
     if path.ends_with("/v1/logs") {
         let req = pb::collector::logs::v1::ExportLogsServiceRequest::decode(body).map_err(|e| e.to_string())?;
         for rl in &req.resource_logs {
+            out.resources.push(rl.resource.as_ref().map(|r| attrs_pb(&r.attributes)).unwrap_or_default());
             for sl in &rl.scope_logs {
                 let scope = sl.scope.as_ref().map(|s| s.name.clone()).unwrap_or_default();
                 for r in &sl.log_records {
@@ -315,6 +318,7 @@ pub fn decode_proto(path: &str, body: &[u8], out: &mut Decoded) -> Result<(), St
     } else if path.ends_with("/v1/traces") {
         let req = pb::collector::trace::v1::ExportTraceServiceRequest::decode(body).map_err(|e| e.to_string())?;
         for rs in &req.resource_spans {
+            out.resources.push(rs.resource.as_ref().map(|r| attrs_pb(&r.attributes)).unwrap_or_default());
             for ss in &rs.scope_spans {
                 let scope = ss.scope.as_ref().map(|s| s.name.clone()).unwrap_or_default();
                 for s in &ss.spans {
@@ -339,6 +343,7 @@ pub fn decode_proto(path: &str, body: &[u8], out: &mut Decoded) -> Result<(), St
         use pb::metrics::v1::{metric::Data, number_data_point::Value as PV};
         let req = pb::collector::metrics::v1::ExportMetricsServiceRequest::decode(body).map_err(|e| e.to_string())?;
         for rm in &req.resource_metrics {
+            out.resources.push(rm.resource.as_ref().map(|r| attrs_pb(&r.attributes)).unwrap_or_default());
             for sm in &rm.scope_metrics {
                 let scope = sm.scope.as_ref().map(|s| s.name.clone()).unwrap_or_default();
                 for m in &sm.metrics {
@@ -461,6 +466,31 @@ fn arr<'a>(t: Option<&'a JsonTree>) -> Result<&'a [JsonTree], String> {
     }
 }
 
+/// Only field names of the official schema (proto3 JSON mapping: lowerCamelCase) may appear.
+fn known_fields(t: &JsonTree, what: &str, names: &[&str]) -> Result<(), String> {
+    for (k, _) in t.entries() {
+        if !names.contains(&k.as_str()) {
+            return Err(format!("{} has a field {:?} that the OTLP schema does not define", what, k));
+        }
+    }
+    no_dup_fields(t, what)
+}
+
+const LOG_RECORD_FIELDS: &[&str] = &["timeUnixNano", "observedTimeUnixNano", "severityNumber", "severityText", "body", "attributes", "droppedAttributesCount", "flags", "traceId", "spanId", "eventName"];
+const SPAN_FIELDS: &[&str] = &[
+    "traceId", "spanId", "traceState", "parentSpanId", "flags", "name", "kind", "startTimeUnixNano", "endTimeUnixNano", "attributes", "droppedAttributesCount", "events", "droppedEventsCount", "links",
+    "droppedLinksCount", "status",
+];
+const SPAN_EVENT_FIELDS: &[&str] = &["timeUnixNano", "name", "attributes", "droppedAttributesCount"];
+const STATUS_FIELDS: &[&str] = &["message", "code"];
+const METRIC_FIELDS: &[&str] = &["name", "description", "unit", "metadata", "gauge", "sum", "histogram", "exponentialHistogram", "summary"];
+const GAUGE_FIELDS: &[&str] = &["dataPoints"];
+const SUM_FIELDS: &[&str] = &["dataPoints", "aggregationTemporality", "isMonotonic"];
+// "value" is not an OTLP field; it is tolerated here and reported by the monitor with its own signature
+const POINT_FIELDS: &[&str] = &["attributes", "startTimeUnixNano", "timeUnixNano", "asDouble", "asInt", "exemplars", "flags", "value"];
+const RESOURCE_FIELDS: &[&str] = &["attributes", "droppedAttributesCount", "entityRefs"];
+const SCOPE_FIELDS: &[&str] = &["name", "version", "attributes", "droppedAttributesCount"];
+
 fn no_dup_fields(t: &JsonTree, what: &str) -> Result<(), String> {
     let es = t.entries();
     for (i, (k, _)) in es.iter().enumerate() {
@@ -516,7 +546,7 @@ fn attrs_json(t: Option<&JsonTree>) -> Result<Attrs, String> {
     arr(t)?
         .iter()
         .map(|kv| {
-            no_dup_fields(kv, "KeyValue")?;
+            known_fields(kv, "KeyValue", &["key", "value"])?;
             Ok((str_json(kv.get("key"))?, any_json(kv.get("value"))?))
         })
         .collect()
@@ -537,13 +567,25 @@ fn decode_json_inner(path: &str, body: &[u8], out: &mut Decoded) -> Result<(), S
     if serde_json::from_str::<serde_json::Value>(text).is_err() {
         return Err("serde_json rejects the body".into());
     }
-    let scope_of = |s: &JsonTree| str_json(s.get("scope").and_then(|s| s.get("name")));
+    let scope_of = |s: &JsonTree| -> Result<String, String> {
+        if let Some(sc) = s.get("scope") {
+            known_fields(sc, "InstrumentationScope", SCOPE_FIELDS)?;
+        }
+        str_json(s.get("scope").and_then(|s| s.get("name")))
+    };
+    known_fields(&root, "Export*ServiceRequest", &["resourceLogs", "resourceSpans", "resourceMetrics"])?;
     if path.ends_with("/v1/logs") {
         for rl in arr(root.get("resourceLogs"))? {
+            known_fields(rl, "Resource*", &["resource", "scopeLogs", "schemaUrl"])?;
+            if let Some(res) = rl.get("resource") {
+                known_fields(res, "Resource", RESOURCE_FIELDS)?;
+            }
+            out.resources.push(attrs_json(rl.get("resource").and_then(|r| r.get("attributes")))?);
             for sl in arr(rl.get("scopeLogs"))? {
+                known_fields(sl, "ScopeLogs", &["scope", "logRecords", "schemaUrl"])?;
                 let scope = scope_of(sl)?;
                 for r in arr(sl.get("logRecords"))? {
-                    no_dup_fields(r, "LogRecord")?;
+                    known_fields(r, "LogRecord", LOG_RECORD_FIELDS)?;
                     out.logs.push(LogRec {
                         scope: scope.clone(),
                         time: u64_json(r.get("timeUnixNano"))?,
@@ -561,17 +603,26 @@ fn decode_json_inner(path: &str, body: &[u8], out: &mut Decoded) -> Result<(), S
         Ok(())
     } else if path.ends_with("/v1/traces") {
         for rs in arr(root.get("resourceSpans"))? {
+            known_fields(rs, "Resource*", &["resource", "scopeSpans", "schemaUrl"])?;
+            if let Some(res) = rs.get("resource") {
+                known_fields(res, "Resource", RESOURCE_FIELDS)?;
+            }
+            out.resources.push(attrs_json(rs.get("resource").and_then(|r| r.get("attributes")))?);
             for ss in arr(rs.get("scopeSpans"))? {
+                known_fields(ss, "ScopeSpans", &["scope", "spans", "schemaUrl"])?;
                 let scope = scope_of(ss)?;
                 for s in arr(ss.get("spans"))? {
-                    no_dup_fields(s, "Span")?;
+                    known_fields(s, "Span", SPAN_FIELDS)?;
                     let status = match s.get("status") {
                         None | Some(JsonTree::Null) => None,
-                        Some(st) => Some((enum_json(st.get("code"))?, str_json(st.get("message"))?)),
+                        Some(st) => {
+                            known_fields(st, "Status", STATUS_FIELDS)?;
+                            Some((enum_json(st.get("code"))?, str_json(st.get("message"))?))
+                        }
                     };
                     let mut events = Vec::new();
                     for e in arr(s.get("events"))? {
-                        no_dup_fields(e, "Span.Event")?;
+                        known_fields(e, "Span.Event", SPAN_EVENT_FIELDS)?;
                         events.push(SpanEvent { name: str_json(e.get("name"))?, time: u64_json(e.get("timeUnixNano"))?, attrs: attrs_json(e.get("attributes"))? });
                     }
                     out.spans.push(SpanRec {
@@ -593,14 +644,20 @@ fn decode_json_inner(path: &str, body: &[u8], out: &mut Decoded) -> Result<(), S
         Ok(())
     } else if path.ends_with("/v1/metrics") {
         for rm in arr(root.get("resourceMetrics"))? {
+            known_fields(rm, "Resource*", &["resource", "scopeMetrics", "schemaUrl"])?;
+            if let Some(res) = rm.get("resource") {
+                known_fields(res, "Resource", RESOURCE_FIELDS)?;
+            }
+            out.resources.push(attrs_json(rm.get("resource").and_then(|r| r.get("attributes")))?);
             for sm in arr(rm.get("scopeMetrics"))? {
+                known_fields(sm, "ScopeMetrics", &["scope", "metrics", "schemaUrl"])?;
                 let scope = scope_of(sm)?;
                 for m in arr(sm.get("metrics"))? {
-                    no_dup_fields(m, "Metric")?;
+                    known_fields(m, "Metric", METRIC_FIELDS)?;
                     let pts = |d: &JsonTree| -> Result<Vec<Point>, String> {
                         let mut out = Vec::new();
                         for p in arr(d.get("dataPoints"))? {
-                            no_dup_fields(p, "NumberDataPoint")?;
+                            known_fields(p, "NumberDataPoint", POINT_FIELDS)?;
                             let (value, value_field) = match (p.get("asInt"), p.get("asDouble"), p.get("value")) {
                                 (Some(i), None, None) => (PointValue::Int(i64_json(i)?), "asInt"),
                                 (None, Some(d), None) => (PointValue::Double(f64_json(d)?), "asDouble"),
@@ -616,10 +673,16 @@ fn decode_json_inner(path: &str, body: &[u8], out: &mut Decoded) -> Result<(), S
                         Ok(out)
                     };
                     let (data, points) = match (m.get("gauge"), m.get("sum")) {
-                        (Some(g), None) => (MetricData::Gauge, pts(g)?),
+                        (Some(g), None) => {
+                            known_fields(g, "Gauge", GAUGE_FIELDS)?;
+                            (MetricData::Gauge, pts(g)?)
+                        }
                         (None, Some(s)) => (
                             MetricData::Sum(
-                                enum_json(s.get("aggregationTemporality"))?,
+                                {
+                                    known_fields(s, "Sum", SUM_FIELDS)?;
+                                    enum_json(s.get("aggregationTemporality"))?
+                                },
                                 match s.get("isMonotonic") {
                                     Some(JsonTree::Bool(b)) => *b,
                                     None | Some(JsonTree::Null) => false,
